@@ -8,6 +8,7 @@ with thresholds placed at value*(1 +- 1e-6), and a handful of real fits
 statistics of predict(baseline).  Oracle: mc.refmodels.metrics (Fractions /
 fsum, computed from the input pairs alone).
 """
+import hashlib
 import itertools
 import math
 
@@ -140,6 +141,12 @@ def _compare(flat, acc, skip=()):
     return bad
 
 
+DEGENERATE_RHO = {
+    "rho=-1": "the lag-1 autocorrelation of the residuals is exactly -1, so n(1-rho)/(1+rho) has a zero denominator",
+    "rho_undefined": "the residuals (or their lag) have no spread, so their lag-1 autocorrelation is 0/0",
+}
+
+
 def check_baseline(obs, pred, p, col, sub):
     """Runs BaselineMetrics on the frame and judges every exposed statistic.  Returns (bm, flat, info) or (None, None, info)."""
     from opendsm.common.metrics import BaselineMetrics
@@ -182,10 +189,9 @@ def check_baseline(obs, pred, p, col, sub):
             col.add("undefined_ratio_reported_as_number",
                     {"cls": "BaselineMetrics", "den": "n-p-1", "den_class": "zero" if rinfo.get("r2adj_class") == "dof-1<=0" else "r2_undefined"},
                     f"r_squared_adj = {_short(got)} with n={nfin}, p={p} (n-p-1 <= 0 or R2 undefined): expected undefined", sub)
-        elif stat == "n_prime" and rinfo.get("n_prime_class") == "rho=-1":
-            col.add("n_prime_zero_denominator", {"cls": "BaselineMetrics"},
-                    f"lag-1 autocorrelation of the residuals is exactly -1, so n(1-rho)/(1+rho) has a zero denominator; reported n_prime = "
-                    f"{_short(got)} (expected {exp})", sub)
+        elif stat == "n_prime" and rinfo.get("n_prime_class") in DEGENERATE_RHO:
+            col.add("n_prime_degenerate_autocorrelation", {"cls": "BaselineMetrics", "rho": rinfo["n_prime_class"]},
+                    f"{DEGENERATE_RHO[rinfo['n_prime_class']]}; reported n_prime = {_short(got)} (expected {exp})", sub)
         else:
             col.add("formula_mismatch", {"cls": "BaselineMetrics", "stat": stat, "got": gc},
                     f"{stat}: reported {_short(got)}, formula on the {nfin} finite pairs gives {exp} (p={p})", sub)
@@ -308,9 +314,7 @@ def check_reporting(bm, flat, col, sub, stats, frames, conf_tails):
                     dumped = True
                 except Exception as exc:  # noqa
                     dumped = False
-                    why = ("baseline_cv_undefined" if ref.classify(base["cv"]) != "num"
-                           else "n_prime_zero" if not (base["n_prime"] and base["n_prime"] > 0) else "other")
-                    col.add("dump_raises", {"cls": "ReportingMetrics", "exc": type(exc).__name__, "why": why},
+                    col.add("dump_raises", {"cls": "ReportingMetrics", "exc": type(exc).__name__},
                             f"ReportingMetrics.model_dump() raised {type(exc).__name__}: {str(exc)[:160]}; savings and sums are defined but "
                             f"cannot be reported (baseline cvrmse_autocorr_adj={_short(base['cv'])}, n_prime={_short(base['n_prime'])})", rsub)
                     for k in REPORT_FIELDS:
@@ -375,9 +379,9 @@ def check_caltrack(obs, pred, p, col, sub, stats):
             col.add("undefined_ratio_reported_as_number",
                     {"cls": "caltrack.ModelMetrics", "den": "sum(observed)", "den_class": rinfo["den_class"]["sum_observed"]},
                     f"{stat} = {_short(g)} although mean(observed) is not safely positive: expected undefined", sub)
-        elif stat == "n_prime" and rinfo.get("n_prime_class") == "rho=-1":
-            col.add("n_prime_zero_denominator", {"cls": "caltrack.ModelMetrics"},
-                    f"lag-1 autocorrelation of the residuals is exactly -1 (zero denominator); reported n_prime = {_short(g)}", sub)
+        elif stat in ("n_prime", "autocorr_resid") and rinfo.get("n_prime_class") in DEGENERATE_RHO:
+            col.add("n_prime_degenerate_autocorrelation", {"cls": "caltrack.ModelMetrics", "rho": rinfo["n_prime_class"]},
+                    f"{DEGENERATE_RHO[rinfo['n_prime_class']]}; reported {stat} = {_short(g)} (expected {ref.describe(acceptance)})", sub)
         else:
             col.add("formula_mismatch", {"cls": "caltrack.ModelMetrics", "stat": stat, "got": gc},
                     f"{stat}: reported {_short(g)}, formula on the {len(o)} finite pairs gives {ref.describe(acceptance)} (p={p})", sub)
@@ -484,6 +488,27 @@ def make_struct(obs_kind, pred_kind, L, contam):
 
 
 # ----------------------------------------------------------------------------------------- real fits (d)
+def _hourly_truth(m, em, data, measured, col, sub, stats, label):
+    """stored baseline_metrics of model m vs the reference statistics of m.predict(baseline) on measured hours"""
+    stored = {k: _plain(v) for k, v in _flatten(m.baseline_metrics.model_dump()).items()}
+    p = stored["num_model_params"]
+    pr = m.predict(em.HourlyBaselineData(data(), is_electricity_data=True), ignore_disqualification=True)
+    if len(pr) != len(measured):
+        return None
+    obs = pr["observed"].to_numpy()[measured].tolist()
+    pred = pr["predicted"].to_numpy()[measured].tolist()
+    acc, info = ref.baseline_reference(obs, pred, p, +1, stored.get("n_prime"))
+    for stat, got, acceptance in _compare(stored, acc):
+        # two different evaluations of the same fitted model: 1e-9 relative
+        if any(a[0] == "num" and ref.classify(got) == "num" and abs(got - a[1]) <= 1e-9 * max(abs(a[1]), 1e-12) + a[2] for a in acceptance):
+            continue
+        col.add("stored_metrics_differ_from_predict", {"cls": "HourlyModel.baseline_metrics"},
+                f"[{label}] stored baseline_metrics.{stat} = {_short(got)}; statistics of predict(baseline) on the {len(obs)} measured "
+                f"(non-interpolated) hours: {ref.describe(acceptance)}", sub)
+    stats["stored_stats_compared"] = stats.get("stored_stats_compared", 0) + len(acc)
+    return _gate_readings(info["gate"]["cv"])[0], _gate_readings(info["gate"]["pn"])[0], len(obs), p
+
+
 def _fit_hourly(case, col, stats):
     from opendsm import eemeter as em
     from opendsm.eemeter.models.hourly import settings as hset
@@ -499,56 +524,47 @@ def _fit_hourly(case, col, stats):
     S = hset.HourlySolarSettings if case.get("solar") else hset.HourlyNonSolarSettings
     raw = data()
     measured = (raw["observed"].notna() & raw["temperature"].notna()).to_numpy()
-    bd = em.HourlyBaselineData(data(), is_electricity_data=True)
-    m = em.HourlyModel(settings=S()).fit(bd)
-    stored = {k: _plain(v) for k, v in _flatten(m.baseline_metrics.model_dump()).items()}
-    p = stored["num_model_params"]
-    pr = m.predict(em.HourlyBaselineData(data(), is_electricity_data=True), ignore_disqualification=True)
-    if len(pr) != len(raw):
-        return {"rejected": "predict(baseline) row count differs from the input (C06 territory)"}
-    obs = pr["observed"].to_numpy()[measured].tolist()
-    pred = pr["predicted"].to_numpy()[measured].tolist()
-    acc, info = ref.baseline_reference(obs, pred, p, +1, stored.get("n_prime"))
     sub = dict(case)
-    for stat, got, acceptance in _compare(stored, acc):
-        # two different evaluations of the same fitted model: 1e-9 relative
-        if any(a[0] == "num" and ref.classify(got) == "num" and abs(got - a[1]) <= 1e-9 * max(abs(a[1]), 1e-12) + a[2] for a in acceptance):
-            continue
-        col.add("stored_metrics_differ_from_predict", {"cls": "HourlyModel.baseline_metrics", "stat": stat, "got": ref.classify(got)},
-                f"stored baseline_metrics.{stat} = {_short(got)}; statistics of predict(baseline) on the {len(obs)} measured "
-                f"(non-interpolated) hours: {ref.describe(acceptance)}", sub)
-    stats["stored_stats_compared"] = len(acc)
-    cv, pn = _gate_readings(info["gate"]["cv"])[0], _gate_readings(info["gate"]["pn"])[0]
-    if cv is None or pn is None:
+    m = em.HourlyModel(settings=S()).fit(em.HourlyBaselineData(data(), is_electricity_data=True))
+    t1 = _hourly_truth(m, em, data, measured, col, sub, stats, "default thresholds")
+    if t1 is None:
+        return {"rejected": "predict(baseline) row count differs from the input (C06 territory)"}
+    cv1, pn1 = t1[0], t1[1]
+    if cv1 is None or pn1 is None:
         return {"rejected": "fitted metrics undefined"}
-    fac = {"lo": 1 - 1e-6, "hi": 1 + 1e-6}
-    tc, tp = cv * fac[case["cv_thr"]], pn * fac[case["pn_thr"]]
-    bd2 = em.HourlyBaselineData(data(), is_electricity_data=True)
-    m2 = em.HourlyModel(settings=S(cvrmse_threshold=tc, pnrmse_threshold=tp)).fit(bd2)
+    # (i) the gate of the fitted object itself, thresholds at value*(1 +- 1e-6), no refit
+    beh = []
+    for (lc, fc), (lp, fp) in itertools.product((("below", 1 - 1e-6), ("above", 1 + 1e-6)), repeat=2):
+        tc, tp = cv1 * fc, pn1 * fp
+        m.settings = S(cvrmse_threshold=tc, pnrmse_threshold=tp)
+        got = bool(m._model_fit_is_acceptable())
+        stats["gate_calls_fitted"] = stats.get("gate_calls_fitted", 0) + 1
+        beh.append(f"{lc}/{lp}:{'ok' if got else 'dq'}")
+        if got != bool(cv1 < tc or pn1 < tp):
+            col.add("hourly_gate_fit", {"expected": "disqualified" if got else "acceptable", "how": "fitted object"},
+                    f"fitted model with cvrmse_threshold={tc!r}, pnrmse_threshold={tp!r}: _model_fit_is_acceptable() -> {got}; true "
+                    f"cvrmse_adj={cv1!r}, pnrmse_adj={pn1!r}", sub)
+    # (ii) end to end through fit(): thresholds a factor 2 away from the value (the hourly fit is not bit-reproducible --
+    # C03's subject -- so a refit cannot be placed within 1e-6 of its own statistic); judged on the refitted model's own truth
+    fac = {"lo": 0.5, "hi": 2.0}
+    tc, tp = cv1 * fac[case["cv_thr"]], pn1 * fac[case["pn_thr"]]
+    m2 = em.HourlyModel(settings=S(cvrmse_threshold=tc, pnrmse_threshold=tp)).fit(em.HourlyBaselineData(data(), is_electricity_data=True))
+    cv, pn, n, p = _hourly_truth(m2, em, data, measured, col, sub, stats, "refit with thresholds")
+    if cv is None or pn is None or abs(cv / tc - 1) < 1e-9 or abs(pn / tp - 1) < 1e-9:
+        return {"rejected": "refit moved a statistic onto its threshold (fit not reproducible; C03)"}
+    if not (cv == cv1 and pn == pn1):
+        stats["refit_not_bit_identical"] = 1
     dq = "eemeter.model_fit_metrics" in [w.qualified_name for w in m2.disqualification]
     expected = not (cv < tc or pn < tp)
     if dq != expected:
-        col.add("hourly_gate_fit", {"expected": "disqualified" if expected else "acceptable"},
+        col.add("hourly_gate_fit", {"expected": "disqualified" if expected else "acceptable", "how": "fit()"},
                 f"fit with cvrmse_threshold={tc!r}, pnrmse_threshold={tp!r}: poor-fit disqualification {'present' if dq else 'absent'}; "
-                f"cvrmse_adj={cv!r}, pnrmse_adj={pn!r}", sub)
-    return {"behaviour": {"n": len(obs), "p": p, "dq": dq, "cv": round(cv, 6), "pn": round(pn, 6)}}
+                f"true cvrmse_adj={cv!r}, pnrmse_adj={pn!r} of this model's predict(baseline)", sub)
+    return {"behaviour": {"n": n, "dq": dq, "cv_side": "pass" if cv < tc else "miss", "pn_side": "pass" if pn < tp else "miss",
+                          "object_gate": beh}}
 
 
-def _fit_daily(case, col, stats):
-    from opendsm import eemeter as em
-
-    from .. import datasets
-
-    df = datasets.daily_frame(days=365, noise=case["noise"])
-
-    def data():
-        if case["family"] == "daily":
-            return em.DailyBaselineData(df.copy(), is_electricity_data=True)
-        reads = datasets.billing_reads(df["observed"])
-        return em.BillingBaselineData.from_series(reads, df["temperature"], is_electricity_data=True)
-
-    Model = em.DailyModel if case["family"] == "daily" else em.BillingModel
-    m = Model().fit(data())
+def _daily_truth(m, data, Model, col, sub, stats, label):
     err = {k: float(v) for k, v in m.error.items()}
     pr = m.predict(data(), ignore_disqualification=True)
     o, q = ref.finite_pairs(pr["observed"].tolist(), pr["predicted"].tolist())
@@ -565,23 +581,47 @@ def _fit_daily(case, col, stats):
         return s[lo] + (s[min(lo + 1, n - 1)] - s[lo]) * (pos - lo)
 
     true = {"RMSE": [rmse], "MAE": [mae], "CVRMSE": [rmse / mean_o], "PNRMSE": [rmse / (qt(0.95) - qt(0.05)), rmse / (qt(0.75) - qt(0.25))]}
-    sub = dict(case)
     for k, vals in true.items():
         if not any(abs(err[k] - v) <= 1e-9 * abs(v) for v in vals):
-            col.add("stored_metrics_differ_from_predict", {"cls": f"{Model.__name__}.error", "stat": k},
-                    f"model.error[{k!r}] = {err[k]!r}; the same statistic of predict(baseline) over its {n} finite rows is "
+            col.add("stored_metrics_differ_from_predict", {"cls": f"{Model.__name__}.error"},
+                    f"[{label}] model.error[{k!r}] = {err[k]!r}; the same statistic of predict(baseline) over its {n} finite rows is "
                     f"{' or '.join(repr(v) for v in vals)} (relative difference {abs(err[k] - vals[0]) / abs(vals[0]):.2e})", sub)
-    stats["stored_stats_compared"] = len(true)
-    cv = rmse / mean_o
-    thr = cv * {"lo": 1 - 1e-6, "hi": 1 + 1e-6}[case["thr"]]
+    stats["stored_stats_compared"] = stats.get("stored_stats_compared", 0) + len(true)
+    return rmse / mean_o, n, abs(err["RMSE"] - rmse) / rmse
+
+
+def _fit_daily(case, col, stats):
+    from opendsm import eemeter as em
+
+    from .. import datasets
+
+    df = datasets.daily_frame(days=365, noise=case["noise"])
+
+    def data():
+        if case["family"] == "daily":
+            return em.DailyBaselineData(df.copy(), is_electricity_data=True)
+        reads = datasets.billing_reads(df["observed"])
+        return em.BillingBaselineData.from_series(reads, df["temperature"], is_electricity_data=True)
+
+    Model = em.DailyModel if case["family"] == "daily" else em.BillingModel
+    sub = dict(case)
+    m = Model().fit(data())
+    cv1, _, _ = _daily_truth(m, data, Model, col, sub, stats, "default threshold")
+    thr = cv1 * {"lo": 1 - 1e-6, "hi": 1 + 1e-6}[case["thr"]]
     m2 = Model(settings={"developer_mode": True, "silent_developer_mode": True, "cvrmse_threshold": thr}).fit(data())
+    cv, n, rel = _daily_truth(m2, data, Model, col, sub, stats, "threshold at value*(1+-1e-6)")
+    if abs(cv / thr - 1) < 1e-9:
+        return {"rejected": "refit moved CVRMSE onto its threshold (fit not reproducible; C03)"}
+    if cv != cv1:
+        stats["refit_not_bit_identical"] = 1
     dq = "eemeter.model_fit_metrics.cvrmse" in [w.qualified_name for w in m2.disqualification]
     expected = cv > thr
     if dq != expected:
         col.add("daily_gate_fit", {"cls": Model.__name__, "expected": "disqualified" if expected else "acceptable"},
-                f"fit with cvrmse_threshold={thr!r}: CVRMSE disqualification {'present' if dq else 'absent'}; CVRMSE of predict(baseline) = "
-                f"{cv!r}, model.error['CVRMSE'] = {m2.error['CVRMSE']!r}", sub)
-    return {"behaviour": {"n": n, "dq": dq, "cvrmse": round(cv, 6), "rel_diff_rmse": float(f"{abs(err['RMSE'] - rmse) / rmse:.1e}")}}
+                f"fit with cvrmse_threshold={thr!r}: CVRMSE disqualification {'present' if dq else 'absent'}; CVRMSE of this model's "
+                f"predict(baseline) = {cv!r}, model.error['CVRMSE'] = {m2.error['CVRMSE']!r}", sub)
+    return {"behaviour": {"n": n, "dq": dq, "side": "exceeds" if cv > thr else "within",
+                          "rel_diff_rmse": float(f"{rel:.1e}")}}
 
 
 # ----------------------------------------------------------------------------------------- case dispatch
@@ -617,7 +657,11 @@ def run_case(case):
         if all(k.startswith(("n0", "raise")) for k in beh) and not col.viol:
             return {"rejected": "no finite pair for any predicted series (observed has no finite value)"}
         stats.update(col.counts)
-        return {"behaviour": sorted(beh.items()), "violations": col.viol, "stats": stats, "nontrivial": nontrivial}
+        items = sorted(beh.items())
+        digest = hashlib.sha256(repr(items).encode()).hexdigest()[:16]
+        top = [[k[:160], v] for k, v in sorted(items, key=lambda kv: (-kv[1], kv[0]))[:4]]
+        return {"behaviour": {"distinct_outcomes": len(items), "digest": digest, "most_common": top},
+                "violations": col.viol, "stats": stats, "nontrivial": nontrivial}
     if kind == "pair":  # a single sub-case (replay)
         obs, pred = [_f(s) for s in case["obs"]], [_f(s) for s in case["pred"]]
         rep = ("jan4", "q1_dirty", "zero_savings") if case.get("reporting") else ()
@@ -634,7 +678,7 @@ def run_case(case):
             beh.append(run_pair(obs, pred, p, col, stats, sub, reporting=("jan4", "q1_dirty", "zero_savings", "ten_months"),
                                 conf_tails=CONF_TAILS, caltrack=True))
         stats.update(col.counts)
-        return {"behaviour": beh, "violations": col.viol, "stats": stats}
+        return {"behaviour": [b[:240] + "#" + hashlib.sha256(b.encode()).hexdigest()[:12] for b in beh], "violations": col.viol, "stats": stats}
     if kind == "fit":
         col = Collector(cap=50)
         res = _fit_hourly(case, col, stats) if case["family"] == "hourly" else _fit_daily(case, col, stats)
